@@ -17,8 +17,8 @@ ID = "C04"
 CASES = {"quick": 900, "thorough": 10000}
 FLOOR = {"quick": 700, "thorough": 8000}
 FLOOR_COUNTERS = {
-    "quick": {"fits_through_fit_transform": 400, "configured_not_by_constructor": 400, "non_default_containers": 400, "objective_judgments": 2500, "competitors_tried": 20000, "grids_judged": 600, "pca_limit_judged": 400, "regression_limit_judged": 250, "regression_limit_with_surplus_components": 100, "arpack_grids": 60, "randomized_grids": 60},
-    "thorough": {"fits_through_fit_transform": 5000, "configured_not_by_constructor": 5000, "non_default_containers": 5000, "objective_judgments": 30000, "competitors_tried": 250000, "grids_judged": 7000, "pca_limit_judged": 5000, "regression_limit_judged": 3000, "regression_limit_with_surplus_components": 1200, "arpack_grids": 800, "randomized_grids": 800},
+    "quick": {"more_than_4096_rows": 25, "caller_buffers_overwritten_after_fit": 300, "fits_through_fit_transform": 400, "configured_not_by_constructor": 400, "non_default_containers": 400, "objective_judgments": 2500, "competitors_tried": 20000, "grids_judged": 600, "pca_limit_judged": 400, "regression_limit_judged": 250, "regression_limit_with_surplus_components": 100, "arpack_grids": 60, "randomized_grids": 60},
+    "thorough": {"more_than_4096_rows": 300, "caller_buffers_overwritten_after_fit": 4000, "fits_through_fit_transform": 5000, "configured_not_by_constructor": 5000, "non_default_containers": 5000, "objective_judgments": 30000, "competitors_tried": 250000, "grids_judged": 7000, "pca_limit_judged": 5000, "regression_limit_judged": 3000, "regression_limit_with_surplus_components": 1200, "arpack_grids": 800, "randomized_grids": 800},
 }
 RULE = (
     "case = centred X, Y (1-3 targets), k, space, a grid of 9 mixings from 0 to 1 (exact least-squares regressor) plus "
@@ -36,11 +36,12 @@ GRID = np.linspace(0.0, 1.0, 9)
 
 
 def gen(rng, tier, index):
-    kind, X, Y = pc.data(rng, tier, kinds=("tall", "wide", "square", "deficient", "decay"))
+    kind, X, Y = pc.data(rng, tier, kinds=("tall",) if index % 40 == 7 else ("tall", "wide", "square", "deficient", "decay"))
     rank = int(np.linalg.matrix_rank(X))
     k = int(rng.integers(1, max(1, rank) + 1))
     return {
         "routes": pc.routes(rng),
+        "many_rows": bool(index % 40 == 7),
         "X": X,
         "Y": Y,
         "kind": kind,
@@ -200,6 +201,9 @@ def run(case, j):
         past = np.random.default_rng(case["cseed"] + 23) if (case["cseed"] % 2 == 0 and i_ == 0) else None
         est = pc.fit_pcovr(j, f"ridge a={a:.3f}", X, Y, rg, regressor_obj=rgobj, past=past, mixing=a, n_components=k, space=space, **skw)
         _judge_objective(j, rng, a, X, Yhr, np.asarray(est.transform(X)), k, "ridge")
+    if case.get("many_rows"):
+        for a_ in (0.0, 0.4, 1.0):
+            pc.many_rows_relation(j, X, Y, {"kind": "lr"} if full_col else {"kind": "ridge", "alpha": 1e-3}, a_, min(k, m))
     j.nontrivial = True
     j.sample = {
         "X": f"{X.shape} {case['kind']}",
